@@ -95,6 +95,25 @@ def run(run, scr, tier, seed, only=None):
     missing = [fn for fn, _ in entries if fn not in funcs]
     if missing:
         run.inconclusive.append(f'C14: anchor function(s) not found in the MIR dump: {missing}')
+    # the secret roots are addressed by parameter name: if a name is gone (signature changed), every non-scalar parameter is secret
+    fixed = []
+    for fn, roots in entries:
+        if fn not in funcs:
+            continue
+        f = funcs[fn]
+        names = [f.debug.get(l, l) for l, t in f.params]
+        if any(v and k not in names for k, v in roots.items()):
+            roots = {f.debug.get(l, l): True for l, t in f.params if not (t in e2.INT or t == 'bool')}
+            run.assumptions.append(f'{fn}: the named secret parameters were not found; every non-scalar parameter is treated as secret')
+        fixed.append((fn, roots))
+    entries = fixed
+    ctflow.QUERIES.clear()
+    # negative control (vacuity witness): without the test mode the rejection branches of Sign are secret-dependent and must be seen
+    ctl, _ = ctflow.analyse_program(funcs, [(f, r) for f, r in entries if f == 'sign_internal'], {'CTEST': False})
+    seen = [x for x in ctl if x['fn'] == 'sign_internal' and x['verdict'] == 'dependent']
+    run.add_query({'name': 'negative control: with CTEST = false the rejection branches of sign_internal are reported as secret-dependent', 'engine': 'E2 skeleton + taint + z3 self-composition', 'verdict': 'holds' if len(seen) >= 2 else 'unknown', 'trivial': True, 'detail': f'{len(seen)} dependent branches'}, core=False)
+    if len(seen) < 2:
+        run.inconclusive.append(f'C14 negative control: only {len(seen)} secret-dependent branch(es) found in sign_internal with CTEST = false (expected the two rejection tests): the analysis does not see the signing loop')
     ctflow.QUERIES.clear()
     t0 = time.time()
     findings = []; stats = {}
